@@ -658,8 +658,23 @@ def v1_hasher(ctx):
                                  d.stmt if d.stmt is not None else rd)
                 else:
                     ctx.holds("C01.6", hp, "continuation requests piece_length - len(piece so far) bytes, recomputed for every file", d.stmt if d.stmt is not None else rd)
-        exts = [n for n in ast.walk(wl[0]) if isinstance(n, ast.Call) and isinstance(n.func, ast.Attribute) and n.func.attr == "extend" and norm(n.func.value) == arr]
-        ctx.decide("C01.6", hp, len(exts) == 1, "the bytes read are appended to the piece once per file", "expected one extend of the piece in the stitching loop, found %d" % len(exts), wl[0])
+        def _is_ext(n):
+            return isinstance(n, ast.Call) and isinstance(n.func, ast.Attribute) and n.func.attr == "extend" and norm(n.func.value) == arr
+
+        def _per_path(stmts):
+            # (fewest, most) extends of the piece along one pass through the statements: the arms of an `if` exclude each other
+            lo = hi = 0
+            for st_ in stmts:
+                if isinstance(st_, ast.If):
+                    a, b = _per_path(st_.body), _per_path(st_.orelse)
+                    lo, hi = lo + min(a[0], b[0]), hi + max(a[1], b[1])
+                else:
+                    k_ = sum(1 for n in ast.walk(st_) if _is_ext(n))
+                    lo, hi = lo + k_, hi + k_
+            return lo, hi
+        exts = _per_path(wl[0].body)
+        ctx.decide("C01.6", hp, exts == (1, 1), "the bytes read are appended to the piece once per file",
+                   "expected one extend of the piece on every pass through the stitching loop, found between %d and %d" % exts, wl[0])
     # next_file
     incs = [n for n in own_nodes(nf.node) if isinstance(n, ast.AugAssign) and norm(n.target) == "self.index"]
     gnf = C.cfg_of(nf)
